@@ -200,6 +200,7 @@ func cmdCheck(args []string) int {
 		return finish(rep, *verif, db, t0)
 	}
 	runDeductive(L, db, rep)
+	runBounded(L, rep, *verif)
 	if extra, ok := extraChecks[*prop]; ok {
 		for _, ec := range extra {
 			ec(L, db, rep)
